@@ -517,6 +517,9 @@ m('redo-lsnmapping-ignores-offset-in-chunk', ['C02'], LR, """			logRecov.lsnMapp
 """, ['C02-R5 [Redo:lsnMapping-is-record-start'])
 m('redo-activetxn-only-at-begin', ['C02'], LR, """			logRecov.activeTxn[logRecord.TxnID] = logRecord.Lsn
 			logRecov.lsnMapping""", """			logRecov.lsnMapping""", ['C02-R5 [Redo:activeTxn-registered-for-every-record]'])
+m('changed-index-header-id-not-stored', ['C07', 'C09'], CAT, """				columnsCatalogHeap.UpdateTuple(tuple.NewTupleFromSchema(row, ColumnsCatalogSchema()), nil, nil, ColumnsCatalogOID, *columnRows[ii].GetRID(), txn, false)
+""", """				_ = row
+""", ['C07-R6 [RecoveryCatalogFromCatalogPage:changed-header-id-is-stored]'])
 # drop the one that needs a helper that does not exist
 M = [x for x in M if x['id'] != 'insert-executor-unlocks-early']
 os.chdir(os.path.dirname(os.path.abspath(__file__)) + '/..')
